@@ -195,6 +195,8 @@ struct Node {
     seed: usize,
     screen: Screen,
     path: Option<Arc<PathNode>>,
+    /// descends from an operation whose results are never merged: its whole subtree is a tree
+    tainted: bool,
 }
 
 pub fn max_frontier() -> usize {
@@ -219,8 +221,9 @@ where
     bfs_nd(c, seeds, depth, max_states, ops_for, judge, |_| false)
 }
 
-/// BFS where the children produced by operations selected by `always_expand` are never merged
-/// with states seen before. The state key only covers the fields this harness knows about; an
+/// BFS where the children produced by operations selected by `always_expand`, AND everything
+/// that descends from them, are never merged with states seen before (below such an operation
+/// the exploration is a tree). The state key only covers the fields this harness knows about; an
 /// operation that is supposed to re-initialise everything (reset) is exactly where a cache or a
 /// field the key does not cover would be left stale, so its results are explored again.
 pub fn bfs_nd<OF, J, ND>(
@@ -242,7 +245,7 @@ where
     let mut frontier: Vec<Node> = Vec::new();
     for (i, b) in seeds.iter().enumerate() {
         if seen.insert(full_key(&b.screen)) {
-            frontier.push(Node { seed: i, screen: b.screen.clone(), path: None });
+            frontier.push(Node { seed: i, screen: b.screen.clone(), path: None, tainted: false });
         }
     }
     let mut levels = vec![frontier.len()];
@@ -285,7 +288,7 @@ where
                 if expand {
                     if let Ok((s, _, _)) = &outcome {
                         // key 0 = "do not merge" marker (a real key of 0 has probability 2^-128)
-                        out.push((if always_expand(&op) { 0 } else { full_key(s) }, oi as u32));
+                        out.push((if n.tainted || always_expand(&op) { 0 } else { full_key(s) }, oi as u32));
                     }
                 }
             }
@@ -340,7 +343,12 @@ where
                 let op = &ops[*oi as usize];
                 let mut s = n.screen.clone();
                 if apply(&mut s, op).is_ok() {
-                    out.push(Node { seed: n.seed, screen: s, path: Some(Arc::new(PathNode { parent: n.path.clone(), op: op.clone() })) });
+                    out.push(Node {
+                        seed: n.seed,
+                        screen: s,
+                        path: Some(Arc::new(PathNode { parent: n.path.clone(), op: op.clone() })),
+                        tainted: n.tainted || always_expand(op),
+                    });
                 }
             }
             out
